@@ -486,7 +486,8 @@ class LockAnalysis:
         return scc
 
     def _wait_site(self, fn, bid, si, e):
-        scc = self._scc_of(fn, bid)
+        from . import paths
+        scc = paths.innermost_loop(fn, bid) or set()
         site = {"fn": fn, "block": bid, "idx": si, "cv": e[1], "lock": e[2],
                 "stmt": fn.blocks[bid].stmts[si], "loop": scc, "conds": [],
                 "reads": set()}
